@@ -24,6 +24,7 @@ RULES = [
     Rule('C10.R4', 'the octave search has a bounded trip count', 2),
     Rule('C10.R5', 'block / F-number packing and register order', 6),
     Rule('C10.R6', 'the glide update visits every channel that has a gliding note', 1),
+    Rule('C10.R7', 're-pitching a key-down note does not depend on the sostenuto mark', 1),
 ]
 EXPLANATION = ('AST def-use slices and constant agreement: the backward slice of the tone argument of OPN2::noteOn inside the Upd_Pitch branch of noteUpdate, '
                'the stores of the RPN 0 bytes paired with the recomputation of the bend range, the frequency constants folded from the AST compared with '
@@ -291,6 +292,7 @@ def analyse(facts, tier):
     ch4 = any(st['s'].get('k') == 'DeclStmt' and any(v['n'] == 'ch4' and show(strip(v.get('init', {}))) == '(c % 6)' for v in st['s']['decls']) for b, j, st in on.cfg.stmts())
     obls.append(Obl('C10.R5', on.name, 'channel within chip = c % 6', on.loc, 'discharged' if ch4 else 'finding', why='ch4 = c % 6' if ch4 else 'channel index within the chip is not c % 6'))
     obls += r6_glide(facts)
+    obls += r7_sostenuto(facts)
     return obls
 
 
@@ -328,4 +330,44 @@ def r6_glide(facts):
                        'the skip test also reads %s: a slide that is under way freezes at an intermediate pitch when that state changes' % ', '.join(others)))
     if n < 1:
         raise build.AnalysisBroken('C10.R6: the per-channel skip test of updateGlide was not found')
+    return out
+
+
+
+def r7_sostenuto(facts):
+    """noteUpdate walks the ACTIVE notes of a channel, i.e. keys that are down.  The sostenuto pedal marks exactly such notes
+    (sustained |= Sustain_Sostenuto), so a re-pitch that requires `sustained == Sustain_None` freezes every held key while the
+    pedal is pressed.  The guard of the pitch write may exclude pedal-held users (Sustain_Pedal) only."""
+    out = []
+    nu = facts.fn('OPNMIDIplay::noteUpdate')
+    en = facts.enums
+    n = 0
+    for b, j, st in nu.cfg.stmts():
+        for x in calls_in(st['s']):
+            if short(callee_name(x)) != 'noteOn' or not callee_name(x).startswith('OPN2::'):
+                continue
+            gf = guard_facts(nu, b, st)
+            if not any('Upd_Pitch' in fact_str(f) or mentions(f[1] if f[0] == 'truth' else ([f[2], f[3]] if f[0] == 'cmp' else []), lambda y: const_of(y) == en.get('Upd_Pitch')) for f in gf):
+                continue
+            n += 1
+            bad = None
+            def walkf(fs):
+                for f in fs:
+                    if f[0] == 'or':
+                        for alt in f[1]:
+                            yield from walkf(alt)
+                    else:
+                        yield f
+            for f in walkf(gf):
+                if f[0] == 'cmp' and f[1] == '==' and mentions(f[2], member_named('sustained')) and not any(y.get('k') == 'BinaryOperator' and y.get('op') == '&' for y in walk(f[2])) and const_of(f[3]) == en.get('Sustain_None', 0):
+                    bad = fact_str(f)
+                if f[0] == 'cmp' and f[1] == '==' and const_of(f[3]) == 0:
+                    for y in walk(f[2]):
+                        if y.get('k') == 'BinaryOperator' and y.get('op') == '&' and mentions(y, member_named('sustained')) and (const_of(y['r']) or 0) & en.get('Sustain_Sostenuto', 2):
+                            bad = fact_str(f)
+            out.append(Obl('C10.R7', nu.name, 'pitch write reaches sostenuto-marked key-down notes', st['loc'], 'finding' if bad else 'discharged',
+                           why=('the pitch is written only when %s: a key that is down while the sostenuto pedal is pressed no longer follows pitch bend, vibrato or glide' % bad) if bad else
+                           'the guard excludes at most pedal-held users'))
+    if n < 1:
+        raise build.AnalysisBroken('C10.R7: the pitch write of noteUpdate was not found')
     return out
